@@ -433,6 +433,7 @@ func c10Limiter(c *Ctx, allow *ssa.Function, limType *types.Named) {
 			}
 			// receiver: every origin is a Load/LoadOrStore on the table
 			var lss []*ssa.Call
+			helperLS := map[*ssa.Call]*ssa.Call{}
 			badOrigin := ""
 			var walk func(v ssa.Value, d int)
 			seenW := map[ssa.Value]bool{}
@@ -460,6 +461,10 @@ func c10Limiter(c *Ctx, allow *ssa.Function, limType *types.Named) {
 					cal := x.Call.StaticCallee()
 					if MethodIs(cal, "sync", "Map", "LoadOrStore") || MethodIs(cal, "sync", "Map", "Load") {
 						lss = append(lss, x)
+					} else if hl := c10BucketHelper(cal, mIdx, limType); hl != nil && len(x.Call.Args) == 3 {
+						// l.bucket(key, candidate): a helper of the limiter that is exactly LoadOrStore on the table
+						lss = append(lss, x)
+						helperLS[x] = hl
 					} else {
 						badOrigin = Render(x)
 					}
@@ -470,7 +475,7 @@ func c10Limiter(c *Ctx, allow *ssa.Function, limType *types.Named) {
 			walk(call.Call.Args[0], 0)
 			var ls *ssa.Call
 			for _, x := range lss {
-				if MethodIs(x.Call.StaticCallee(), "sync", "Map", "LoadOrStore") {
+				if MethodIs(x.Call.StaticCallee(), "sync", "Map", "LoadOrStore") || helperLS[x] != nil {
 					ls = x
 				}
 			}
@@ -599,4 +604,33 @@ func fieldNameOf(fa *ssa.FieldAddr) string {
 		return ""
 	}
 	return st.Field(fa.Field).Name()
+}
+
+// c10BucketHelper: f is a method of the limiter whose result is the value of one LoadOrStore(param1, param2) on the
+// limiter's own table (returns that LoadOrStore call), so a call f(l, key, candidate) stands for the LoadOrStore itself.
+func c10BucketHelper(f *ssa.Function, mIdx int, limType *types.Named) *ssa.Call {
+	if f == nil || !InRepo(f) || f.Blocks == nil || len(f.Params) != 3 || f.Signature.Recv() == nil || NamedOf(f.Signature.Recv().Type()) != limType {
+		return nil
+	}
+	var ls *ssa.Call
+	n := 0
+	for _, call := range Calls(f) {
+		cv, ok := call.(*ssa.Call)
+		if !ok {
+			continue
+		}
+		if MethodIs(cv.Call.StaticCallee(), "sync", "Map", "LoadOrStore") {
+			fa, isFA := cv.Call.Args[0].(*ssa.FieldAddr)
+			if isFA && fa.Field == mIdx && fa.X == ssa.Value(f.Params[0]) && Unwrap(cv.Call.Args[1]) == ssa.Value(f.Params[1]) && Unwrap(cv.Call.Args[2]) == ssa.Value(f.Params[2]) {
+				ls = cv
+			}
+			n++
+		} else if cal := cv.Call.StaticCallee(); cal != nil && PkgOf(cal) == "sync" {
+			return nil
+		}
+	}
+	if n != 1 {
+		return nil
+	}
+	return ls
 }
